@@ -110,6 +110,13 @@ func (fr *frame) binop(op token.Token, t types.Type, x, y Value, pos token.Pos) 
 			if !w.path.Branch(tNot(tEq(b, intConst(0)))) {
 				fr.goPanic("integer divide by zero", pos)
 			}
+			if w.splitDiv && !b.isConst() && w.path.Branch(tGe(a, intConst(0))) && w.path.Branch(tGt(b, intConst(0))) {
+				q, r := w.splitQuotient(a, b)
+				if op == token.QUO {
+					return lowerInt(q, k)
+				}
+				return lowerInt(r, k)
+			}
 			if op == token.QUO {
 				if k.signed {
 					return lowerInt(tWrap(tQuoT(a, b), k.bits, true), k)
@@ -216,6 +223,29 @@ func (fr *frame) binop(op token.Token, t types.Type, x, y Value, pos token.Pos) 
 		}
 		if r, ok := w.fpConvCmpConv(op, x, y); ok {
 			return r
+		}
+		// sums and differences of exactly converted integers whose result is again
+		// exactly representable (|.| <= 2^53) are exact: float64(a) - float64(b) == float64(a-b)
+		if op == token.ADD || op == token.SUB {
+			if ia, ok := fpIntOrigin(x); ok {
+				if ib, ok := fpIntOrigin(y); ok {
+					var r *Term
+					if op == token.ADD {
+						r = tAdd(ia, ib)
+					} else {
+						r = tSub(ia, ib)
+					}
+					lim := pow2(53)
+					if r.isConst() {
+						if new(big.Int).Abs(r.val).Cmp(lim) <= 0 {
+							f, _ := new(big.Float).SetInt(r.val).Float64()
+							return f
+						}
+					} else if r.lo != nil && r.hi != nil && new(big.Int).Abs(r.lo).Cmp(lim) <= 0 && new(big.Int).Abs(r.hi).Cmp(lim) <= 0 {
+						return w.intToFloat(r)
+					}
+				}
+			}
 		}
 		a, b := liftFloat(x), liftFloat(y)
 		rm := &Term{op: "const", sort: SFP, raw: "RNE", size: 1}
